@@ -1,0 +1,152 @@
+//go:build verif
+
+// Contracts for the fvc verification-condition generator in /verif (comment-only file).
+//
+// The limiter's store: what the two back ends of manager.go (internal/memory, fiber.Storage + msgpack) hold,
+// the limiter's VIEW of it (lsCurr/lsPrev/lsExp, used by the handler contracts in zz_contracts_verif.go) as a
+// defined function of the back-end models, and the CHECKED contracts of newManager/acquire/release/get/set.
+
+package limiter
+
+//@ props C13
+
+// ---- internal/memory as the limiter uses it (ASSUMED client-side contract) --------------------------------
+// The functions are verified in /repo/internal/memory/zz_contracts_verif.go for the key set, the lock discipline
+// and safety; the value/TTL part cannot be stated there (struct-valued map) and is assumed here:
+// a linearizable map with TTL. memHas[store][key]: a value was Set under key and no Get(key) has observed it
+// expired since (expiry is observed at Get, and only for the key that is read). memVal: the stored interface value (a *item).
+// memKey[store][p]: the key under which pointer p was stored last. memCurr/memPrev/memExp: the fields of the
+// stored item AT THE TIME OF Set (a ghost snapshot: the store keeps the pointer, and the handler updates the item
+// in place between get and set; the coupling invariant storeOK below says that snapshot and item agree whenever
+// the limiter's lock is free).
+//@ ghost memHas map[ref]map[string]bool
+//@ ghost memVal map[ref]map[string]ref
+//@ ghost memKey map[ref]map[ref]string
+//@ ghost memCurr map[ref]map[string]int
+//@ ghost memPrev map[ref]map[string]int
+//@ ghost memExp map[ref]map[string]int
+//@ func @memory.(*Storage).Get(s, key) assumed
+//@   modifies memHas
+//@   ensures only-expiry-of-the-key-read: forallI(r, forallS(k, memHas[r][k] == (old(memHas[r][k]) && ((r == s && k == key) ==> memHas[s][key]))))
+//@   ensures live-value: memHas[s][key] ==> result == memVal[s][key]
+//@   ensures expired-or-absent: !memHas[s][key] ==> result == nil
+//@ func @memory.(*Storage).Set(s, key, val, ttl) assumed
+//@   modifies memHas, memVal, memKey, memCurr, memPrev, memExp
+//@   ensures memHas == old(memHas)[s := old(memHas)[s][key := true]]
+//@   ensures memVal == old(memVal)[s := old(memVal)[s][key := val]]
+//@   ensures memKey == old(memKey)[s := old(memKey)[s][as(val, *item) := key]]
+//@   ensures memCurr == old(memCurr)[s := old(memCurr)[s][key := old(as(val, *item).currHits)]]
+//@   ensures memPrev == old(memPrev)[s := old(memPrev)[s][key := old(as(val, *item).prevHits)]]
+//@   ensures memExp == old(memExp)[s := old(memExp)[s][key := old(as(val, *item).exp)]]
+// (memory.New: `assumed pure fresh` in contracts/deps/mw_C17.spec)
+
+// ---- msgpack codec of item (generated code, ASSUMED round trip) ----------------------------------------------
+// isEnc(s): s is the encoding of an item; decCurr/decPrev/decExp: its fields. MarshalMsg never fails and
+// appends the encoding of z to b; UnmarshalMsg of an encoding succeeds and sets exactly the three fields.
+//@ fn isEnc(s string) bool
+//@ fn decCurr(s string) int
+//@ fn decPrev(s string) int
+//@ fn decExp(s string) int
+//@ func (item).MarshalMsg(z, b) assumed pure allocates
+//@   ensures result1 == nil ==> arr(result0) == arr(b) || arr(result0) == 0 || !old(allocated(arr(result0)))
+//@   ensures never-fails: result1 == nil
+//@   ensures round-trip: len(b) == 0 ==> isEnc(str(result0)) && decCurr(str(result0)) == z.currHits && decPrev(str(result0)) == z.prevHits && decExp(str(result0)) == z.exp
+//@ func (*item).UnmarshalMsg(z, bts) assumed
+//@   modifies z.currHits, z.prevHits, z.exp
+//@   ensures round-trip: isEnc(str(bts)) ==> result1 == nil && z.currHits == decCurr(str(bts)) && z.prevHits == decPrev(str(bts)) && z.exp == decExp(str(bts))
+
+// ---- the limiter's view of its store ------------------------------------------------------------------------
+// Per key the current and previous window counters and the window end; all three are 0 for a key without a
+// live entry. External back end: decoded from the stored bytes; memory back end: the snapshot taken at Set.
+//@ macro lsHas(m, k) = ite(m.storage != nil, stHas[m.storage][k], memHas[m.memory][k])
+//@ macro lsCurr(m, k) = ite(m.storage != nil, ite(stHas[m.storage][k], decCurr(stVal[m.storage][k]), 0), ite(memHas[m.memory][k], memCurr[m.memory][k], 0))
+//@ macro lsPrev(m, k) = ite(m.storage != nil, ite(stHas[m.storage][k], decPrev(stVal[m.storage][k]), 0), ite(memHas[m.memory][k], memPrev[m.memory][k], 0))
+//@ macro lsExp(m, k) = ite(m.storage != nil, ite(stHas[m.storage][k], decExp(stVal[m.storage][k]), 0), ite(memHas[m.memory][k], memExp[m.memory][k], 0))
+
+// Coupling between the models and the heap, per key:
+//   external: every live value is an item encoding (only manager.set writes into the store);
+//   memory:   the stored value is a non-nil *item whose fields are the snapshot, and it is stored under this key only.
+//@ macro memPtr(m, k) = as(memVal[m.memory][k], *item)
+//@ macro extOK(m, k) = stHas[m.storage][k] ==> isEnc(stVal[m.storage][k])
+//@ macro memOK(m, k) = memHas[m.memory][k] ==> typeis(memVal[m.memory][k], *item) && memPtr(m, k) != nil && memKey[m.memory][memPtr(m, k)] == k && memPtr(m, k).currHits == memCurr[m.memory][k] && memPtr(m, k).prevHits == memPrev[m.memory][k] && memPtr(m, k).exp == memExp[m.memory][k]
+//@ macro storeOK(m) = m != nil && (m.storage != nil ==> forallS(k, extOK(m, k))) && (m.storage == nil ==> m.memory != nil && forallS(k, memOK(m, k)))
+// ... between get and set the item of `key` is in the hands of the handler (memory back end: it is updated in place)
+//@ macro storeOKExcept(m, key) = m != nil && (m.storage != nil ==> forallS(k, extOK(m, k))) && (m.storage == nil ==> m.memory != nil && forallS(k, k != key ==> memOK(m, k)))
+// p is not held by any memory store (an item that came out of the pool, or that was only ever serialised)
+//@ macro notStored(p) = forallI(s, forallS(k, memHas[s][k] ==> as(memVal[s][k], *item) != p))
+// p may be written back under key: it is the pointer stored there, or it is stored nowhere
+//@ macro mine(m, key, p) = p != nil && (m.storage == nil ==> ite(memHas[m.memory][key], typeis(memVal[m.memory][key], *item) && p == memPtr(m, key) && memKey[m.memory][p] == key, notStored(p))) && (m.storage != nil ==> notStored(p))
+//@ macro blank(p) = p.currHits == 0 && p.prevHits == 0 && p.exp == 0
+
+// ---- sync.Pool ----------------------------------------------------------------------------------------------
+// Assumption about sync.Pool (the only one): Get returns New() or an object that was Put and not touched since,
+// and never hands one object to two users. Hence what Get returns satisfies whatever is proved at every Put
+// (release: `pool-invariant`) and of New (newManager$1: `pool-new`): a blank item that no memory store holds.
+//@ func @sync.(*Pool).Get(p) assumed pure allocates
+//@   ensures pool-type: typeis(result, *item) && as(result, *item) != nil
+//@   ensures pool-invariant: blank(as(result, *item)) && notStored(as(result, *item))
+
+// pool.New
+//@ func newManager$1
+//@   pure
+//@   ensures pool-new: typeis(result, *item) && as(result, *item) != nil && blank(as(result, *item)) && !old(allocated(as(result, *item)))
+
+// modelSane: only stores that exist hold entries (so a store that memory.New has just made is empty)
+//@ macro modelSane() = forallI(s, forallS(k, memHas[s][k] ==> allocated(s)))
+// storeIsOurs: an external store handed to the limiter holds nothing but limiter entries (it is empty or was only
+// written by a limiter): the limiter decodes whatever it finds under a key.
+//@ macro storeIsOurs(st) = st != nil ==> forallS(k, stHas[st][k] ==> isEnc(stVal[st][k]))
+//@ func newManager fresh
+//@   requires model-sane: modelSane()
+//@   requires store-is-ours: storeIsOurs(storage)
+//@   pure
+//@   ensures wired: result != nil && result.storage == storage && (storage == nil ==> result.memory != nil)
+//@   ensures store-ok: storeOK(result)
+//@   ensures memory-store-starts-empty: storage == nil ==> forallS(k, !memHas[result.memory][k])
+
+//@ func (*manager).acquire
+//@   requires manager: m != nil
+//@   pure
+//@   ensures blank-unshared-item: result != nil && blank(result) && notStored(result)
+
+//@ func (*manager).release
+//@   requires manager-and-item: m != nil && e != nil
+//@   requires unshared: notStored(e)
+//@   modifies e.prevHits, e.currHits, e.exp
+//@   atcall @sync.(*Pool).Put: pool-invariant: typeis(x, *item) && as(x, *item) == e && blank(e) && notStored(e)
+//@   ensures blank(e)
+
+// get: the item of the entry (memory: the stored item itself; external: a pooled item filled from the stored
+// bytes), a blank item if there is no live entry. Expiry is observed here, for this key only. If the external
+// store cannot be read, or holds something that does not decode, no item is handed out and the error is returned.
+//@ func (*manager).get
+//@   requires store-ok: storeOK(m)
+//@   modifies memHas, stHas, item.currHits, item.prevHits, item.exp
+//@   atcall @fiber.Storage.Get: own-store-own-key: recv == m.storage && arg1 == key
+//@   atcall @memory.(*Storage).Get: own-store-own-key: s == m.memory && arg1 == key
+//@   ensures item-or-error: (result1 == nil) <==> (result0 != nil)
+//@   ensures memory-never-fails: m.storage == nil ==> result1 == nil
+//@   ensures same-or-expired: (lsCurr(m, key) == old(lsCurr(m, key)) && lsPrev(m, key) == old(lsPrev(m, key)) && lsExp(m, key) == old(lsExp(m, key))) || (lsCurr(m, key) == 0 && lsPrev(m, key) == 0 && lsExp(m, key) == 0)
+//@   ensures other-keys-kept: forallS(k, k != key ==> lsCurr(m, k) == old(lsCurr(m, k)) && lsPrev(m, k) == old(lsPrev(m, k)) && lsExp(m, k) == old(lsExp(m, k)) && lsHas(m, k) == old(lsHas(m, k)))
+//@   ensures item-is-entry: result1 == nil ==> result0.currHits == lsCurr(m, key) && result0.prevHits == lsPrev(m, key) && result0.exp == lsExp(m, key)
+//@   ensures store-ok-but-for-the-item-handed-out: result1 == nil ==> storeOKExcept(m, key) && mine(m, key, result0)
+//@   ensures store-ok-on-error: result1 != nil ==> storeOK(m)
+//@   ensures manager-kept: m.storage == old(m.storage) && m.memory == old(m.memory)
+
+// set: afterwards the entry of key is the item as handed in - or the error of the external store is returned and
+// the entry is unchanged -, no other entry changes, and the store is coupled again. External back end: the store
+// gets a buffer that nobody else holds (it may keep the slice).
+//@ func (*manager).set
+//@   requires store-ok-but-for-this-item: storeOKExcept(m, key) && mine(m, key, it)
+//@   modifies memHas, memVal, memKey, memCurr, memPrev, memExp, stHas, stVal, it.currHits, it.prevHits, it.exp
+//@   atcall @fiber.Storage.Set: buffer-not-shared: arr(val) == 0 || !old(allocated(arr(val)))
+//@   atcall @fiber.Storage.Set: own-key-and-ttl: key == arg1 && exp == arg3
+//@   atcall @fiber.Storage.Set: own-store: recv == m.storage
+//@   atcall @fiber.Storage.Set: encodes-the-item-as-handed-in: isEnc(str(val)) && decCurr(str(val)) == old(it.currHits) && decPrev(str(val)) == old(it.prevHits) && decExp(str(val)) == old(it.exp)
+//@   atcall @memory.(*Storage).Set: own-store-key-ttl-item: s == m.memory && arg1 == key && ttl == exp && typeis(val, *item) && as(val, *item) == it
+//@   ensures memory-never-fails: m.storage == nil ==> result == nil
+//@   ensures entry-stored: result == nil ==> lsCurr(m, key) == old(it.currHits) && lsPrev(m, key) == old(it.prevHits) && lsExp(m, key) == old(it.exp)
+//@   ensures entry-kept-on-error: result != nil ==> lsCurr(m, key) == old(lsCurr(m, key)) && lsPrev(m, key) == old(lsPrev(m, key)) && lsExp(m, key) == old(lsExp(m, key))
+//@   ensures other-keys-kept: forallS(k, k != key ==> lsCurr(m, k) == old(lsCurr(m, k)) && lsPrev(m, k) == old(lsPrev(m, k)) && lsExp(m, k) == old(lsExp(m, k)) && lsHas(m, k) == old(lsHas(m, k)))
+//@   ensures store-ok: storeOK(m)
+//@   ensures manager-kept: m.storage == old(m.storage) && m.memory == old(m.memory)
